@@ -212,6 +212,107 @@ func main() {
 		}
 	}
 
+	// producer-set changes on ONE long-lived cluster object (elections): members dropped, added, reordered;
+	// blocks signed by current members, by members of the PREVIOUS set that were voted out, and by outsiders
+	for sess := 0; sess < run.Pick(30, 400); sess++ {
+		ivs := intervals[rng.Intn(len(intervals))]
+		slot.Init(ivs)
+		iv := slot.VerifIntervalMs()
+		n := 2 + rng.Intn(8)
+		cur := rng.Intn(len(pool))
+		var ids []string
+		var members []producer
+		for j := 0; j < n; j++ {
+			members = append(members, pool[(cur+j)%len(pool)])
+			ids = append(ids, members[j].id)
+		}
+		c, err := bp.VerifNewCluster(ids)
+		if err != nil {
+			panic(err)
+		}
+		d := dpos.VerifNewDPoS(c)
+		for round := 0; round < 4; round++ {
+			prev := members
+			// next set: drop some, add some, sometimes rotate the order
+			var next []producer
+			for _, m := range members {
+				if !rng.Chance(1, 3) {
+					next = append(next, m)
+				}
+			}
+			for len(next) < 2 || rng.Chance(1, 3) {
+				cand := pool[rng.Intn(len(pool))]
+				dup := false
+				for _, m := range next {
+					dup = dup || m.id == cand.id
+				}
+				if !dup {
+					next = append(next, cand)
+				}
+			}
+			if rng.Chance(1, 3) {
+				next = append(next[1:], next[0])
+			}
+			members = next
+			ids = ids[:0]
+			for _, m := range members {
+				ids = append(ids, m.id)
+			}
+			if err := c.Update(ids); err != nil {
+				panic(err)
+			}
+			run.Count("election")
+			n = len(members)
+			for k := 0; k < 6; k++ {
+				roundNo := int64(rng.Intn(1000000))
+				own := rng.Intn(n)
+				ms := (roundNo*int64(n)+int64(own))*iv + int64(rng.Intn(int(iv))) + 1
+				ts := ms*1000000 + int64(rng.Intn(1000000))
+				sl := slot.NewFromUnixNano(ts)
+				own = int(sl.NextBpIndex(uint16(n)))
+				var signer producer
+				kind := "owner"
+				switch rng.Intn(3) {
+				case 0:
+					signer = members[own]
+				case 1:
+					// a member of the previous set, preferably one that was voted out
+					signer = prev[rng.Intn(len(prev))]
+					kind = "previous-set"
+					// pick the slot its OLD index owned
+					for pi, pm := range prev {
+						if pm.id == signer.id {
+							ms = (roundNo*int64(n)+int64(pi%n))*iv + 1
+							ts = ms * 1000000
+							sl = slot.NewFromUnixNano(ts)
+							own = int(sl.NextBpIndex(uint16(n)))
+						}
+					}
+				default:
+					signer = pool[rng.Intn(len(pool))]
+					kind = "any"
+				}
+				blk := &types.Block{Header: &types.BlockHeader{ChainID: []byte("c"), BlockNo: uint64(roundNo), Timestamp: ts}, Body: &types.BlockBody{}}
+				if err := blk.Sign(signer.priv); err != nil {
+					panic(err)
+				}
+				ok := d.IsBlockValid(blk, nil) == nil
+				run.Op(fmt.Sprintf("valid %d %d %s %s", iv, ts, signer.id, strings.Join(ids, " ")), fmt.Sprint(ok), true)
+				pos := -1
+				for j, id := range ids {
+					if id == signer.id {
+						pos = j
+					}
+				}
+				run.Count(fmt.Sprintf("after-election signer=%s member=%v valid=%v", kind, pos >= 0, ok))
+				if ok != (pos >= 0 && pos == own) {
+					run.Fail("after a producer-set change IsBlockValid differs from 'current member whose index owns the slot'",
+						map[string]interface{}{"intervalMs": iv, "ts": ts, "signer": signer.id, "currentIds": append([]string{}, ids...), "accepted": ok, "signerKind": kind})
+				}
+			}
+		}
+	}
+
 	// header mutations: hash must change, signature must stop verifying
 	fields := []string{"ChainID", "PrevBlockHash", "BlockNo", "Timestamp", "BlocksRootHash", "TxsRootHash", "ReceiptsRootHash",
 		"Confirms", "PubKey", "CoinbaseAccount", "Sign", "Consensus"}
